@@ -226,6 +226,7 @@ func (g *genState) genC12() {
 		"f@0 1 bool true", "f@0 300 i64 -9", "fany@0 2 " + vhex, "fmsg@0 3", "flist@0 4", "has@0 1", "copy@0 " + vhex,
 		"e@0 u16 300", "eany@0 " + vhex, "emsg@0", "elist@0", "len@0",
 		"end@0", "build@0", "end@1", "build@1", "f@1 1 byte 7", "e@1 bool false", "len@1", "has@1 1",
+		"fw@0 5 01 fail", "fw@0 6 01 ok", "ew@0 01 fail", "fw@1 5 01 fail", "ew@1 01 fail",
 		"err", "reset", "free",
 	}
 	// all handle-consistent programs of length <= 4 (quick) / <= 5 on a reduced alphabet (thorough)
@@ -240,9 +241,9 @@ func (g *genState) genC12() {
 		}
 		h, _ := strconv.Atoi(op[i+1 : j])
 		switch op[:i] {
-		case "f", "fany", "fmsg", "flist", "has", "copy", "merge":
+		case "f", "fany", "fmsg", "flist", "has", "copy", "merge", "fw":
 			return h, 'M'
-		case "e", "eany", "emsg", "elist", "len":
+		case "e", "eany", "emsg", "elist", "len", "ew":
 			return h, 'L'
 		}
 		return h, '*'
@@ -279,7 +280,8 @@ func (g *genState) genC12() {
 	}
 	depth := 3
 	reduced := []string{"msg", "list", "v i32 7", "f@0 1 bool true", "fmsg@0 3", "flist@0 4", "e@0 u16 300", "emsg@0", "elist@0",
-		"end@0", "build@0", "end@1", "build@1", "f@1 1 byte 7", "e@1 bool false", "len@1", "reset", "free", "vbuild"}
+		"end@0", "build@0", "end@1", "build@1", "f@1 1 byte 7", "e@1 bool false", "len@1", "reset", "free", "vbuild",
+		"fw@0 5 01 fail", "ew@1 01 fail"}
 	rec(nil, nil, depth, alphabet)
 	rec(nil, nil, 4, reduced)
 	if g.thor {
@@ -346,9 +348,9 @@ func (g *genState) randomProgram(vhex string) string {
 				calls = append(calls, "err")
 			case 7:
 				if len(hs) > 0 && hs[k].kind == 'M' {
-					calls = append(calls, fmt.Sprintf("f@%d %d %s", k, 1+r.Intn(300), scal[r.Intn(len(scal))]))
+					calls = append(calls, fmt.Sprintf("fw@%d %d 0a0b %s", k, 1+r.Intn(300), []string{"ok", "fail"}[r.Intn(2)]))
 				} else if len(hs) > 0 {
-					calls = append(calls, fmt.Sprintf("e@%d %s", k, scal[r.Intn(len(scal))]))
+					calls = append(calls, fmt.Sprintf("ew@%d 0a0b %s", k, []string{"ok", "fail"}[r.Intn(2)]))
 				} else {
 					calls = append(calls, "msg")
 					hs = append(hs, h{'M', true})
